@@ -186,6 +186,8 @@ impl Bytes {
     #[verifier::external_body]
     pub fn len(&self) -> (r: usize) ensures r == self@.len() { self.inner.len() }
     #[verifier::external_body]
+    pub fn is_empty(&self) -> (r: bool) ensures r == (self@.len() == 0) { self.inner.is_empty() }
+    #[verifier::external_body]
     pub fn as_ref(&self) -> (r: &[u8]) ensures r@ == self@ { &self.inner[..] }
 }
 
